@@ -97,4 +97,17 @@ theorem parse_some_shape (bs : List UInt8) (tp : Traceparent) (h : parseTracepar
         have ⟨e, l1, l2, l3⟩ := shape_of_checks bs hl' hsep'.1 hsep'.2.1 hsep'.2.2 hv'
         exact ⟨_, _, _, e, l1, l2, l3⟩
 
+theorem zeros_hex (n : Nat) : tryFromHexSlice n (zeros (2 * n)) = none := by
+  cases h : tryFromHexSlice n (zeros (2 * n)) with
+  | none => rfl
+  | some v =>
+    have ⟨_, d, e, nz⟩ := (tryFromHexSlice_eq_some n _ v).1 h
+    exact absurd (e ▸ (hexValue_zero _ d).2 (by simp [zeros])) nz
+
+theorem toHex_ne_zeros (n v : Nat) (h0 : v ≠ 0) (hlt : v < 256 ^ n) : toHex n v ≠ zeros (2 * n) := by
+  intro h
+  have := tryFromHexSlice_toHex n v h0 hlt
+  rw [h, zeros_hex] at this
+  cases this
+
 end EmitModel.TraceparentText
